@@ -34,6 +34,7 @@ import PV.Driver.C18TableOps
 import PV.Driver.StrTableOps
 import PV.Driver.AnalysisHistOps
 import PV.Driver.OpsSyntaxOps
+import PV.Driver.CCodeProgOps
 /-
   Driver operations: one request S-expression in, one reply S-expression out.
 -/
@@ -240,6 +241,7 @@ def handlers : List (Sexp → Option Sexp) :=
    , handleStrTable
    , handleAnalysisHist
    , handleOpsSyntax
+   , handleCCodeProg
    -- HANDLERS
   ]
 
